@@ -250,6 +250,15 @@ def r_shutdown_seq(e, R):
                 if isinstance(x, ast.AugAssign) and isinstance(x.target, ast.Name) and isinstance(x.op, ast.Add) \
                         and isinstance(x.value, ast.Constant) and x.value.value == 1 and _same_block(e, x, stmt_of(e, f, c)):
                     counters.add(x.target.id)
+            # the same count as `for n, p in enumerate(<all workers>, 1)` with n initialised to 0 for the empty table
+            it_ = e.expand(f, loop.iter)
+            if isinstance(it_, ast.Call) and isinstance(it_.func, ast.Name) and it_.func.id == "enumerate" and len(it_.args) == 2 \
+                    and isinstance(it_.args[1], ast.Constant) and it_.args[1].value == 1 and isinstance(loop.target, ast.Tuple) \
+                    and isinstance(loop.target.elts[0], ast.Name) and not any(
+                        isinstance(x, (ast.Break, ast.Continue)) for x in _walk_noscope(loop)):
+                cn = loop.target.elts[0].id
+                if any(isinstance(d, ast.Constant) and d.value == 0 for d in e.local_defs(f, cn)):
+                    counters.add(cn)
     R.check(bool(counters), "R-SHUTDOWN-SEQ", f"{f.short}: the number of workers to stop is counted in the release loop", f.short,
             "n_children_to_stop += 1", "the number of sentinels to post is not the number of released workers", e.loc(f, f.node))
     # (2) sentinel loop: non-blocking post, one count per successful post, bounded by the counter
@@ -268,11 +277,12 @@ def r_shutdown_seq(e, R):
                     and isinstance(blk[i + 1].op, ast.Add):
                 sent_counter = blk[i + 1].target.id
         if wl is not None and sent_counter:
+            # both counters are compared in the guard (how, is decided by the table below: any spelling of the comparison will do)
             for cmp_ in ast.walk(wl.test):
-                if isinstance(cmp_, ast.Compare) and len(cmp_.ops) == 1 and isinstance(cmp_.ops[0], ast.Lt) \
-                        and isinstance(cmp_.left, ast.Name) and cmp_.left.id == sent_counter \
-                        and isinstance(cmp_.comparators[0], ast.Name) and cmp_.comparators[0].id in counters:
-                    ok = True
+                if isinstance(cmp_, ast.Compare) and len(cmp_.ops) == 1:
+                    nm_ = {x.id for x in [cmp_.left, cmp_.comparators[0]] if isinstance(x, ast.Name)}
+                    if sent_counter in nm_ and nm_ & counters:
+                        ok = True
         if ok and wl is not None:
             # decision table of the whole guard: it must hold exactly while sentinels are owed and somebody is alive
             alive_fn = None
@@ -365,7 +375,8 @@ def _same_block(e, a_, b_):
 def _iter_all_processes(e, f, it):
     a = e.anchors
     it = e.expand(f, it)
-    while isinstance(it, ast.Call) and isinstance(it.func, ast.Name) and it.func.id in ("list", "tuple") and len(it.args) == 1:
+    while isinstance(it, ast.Call) and isinstance(it.func, ast.Name) and (it.func.id in ("list", "tuple") and len(it.args) == 1
+                                                                            or it.func.id == "enumerate" and it.args):
         it = e.expand(f, it.args[0])
     return isinstance(it, ast.Call) and isinstance(it.func, ast.Attribute) and it.func.attr in ("values", "items") \
         and bool(e.objs(f, it.func.value) & a.processes)
